@@ -49,6 +49,7 @@ type RunSpec struct {
 	Informational []string          `json:"informational"`
 	TwoRun        string            `json:"two_run"`      // obligation id prefix: run the harness in two-run non-interference mode (sym/tworun.go)
 	TwoRunOnly    bool              `json:"two_run_only"` // keep only the two-run obligations
+	ConcIdx       bool              `json:"concretize_indices"` // replace symbolic array indices that can take only one value by that constant (solver-backed)
 	MapReverse    bool              `json:"map_reverse"`  // iterate maps with concrete keys in descending key order (order-independence runs)
 }
 
@@ -561,6 +562,7 @@ func runInstance(ld *sym.Loaded, spec *Spec, rs *RunSpec, args []int64, known ma
 	}
 	installStubs(e, spec, rs.NoStubs)
 	e.MapReverse = rs.MapReverse
+	e.ConcIdx = rs.ConcIdx
 	if rs.Unwind > 0 {
 		e.Unwind = rs.Unwind
 	}
@@ -944,6 +946,7 @@ func interpReplay(ld *sym.Loaded, spec *Spec, rs *RunSpec, args []int64, vals ma
 	e.Concrete = vals
 	e.TwoRun, e.TwoRunOnly = rs.TwoRun, rs.TwoRunOnly
 	e.MapReverse = rs.MapReverse
+	e.ConcIdx = rs.ConcIdx
 	if rs.Unwind > 0 {
 		e.Unwind = rs.Unwind
 	}
